@@ -990,7 +990,7 @@ def run(ctx):
         'pickle.loads / json.loads: their results are inputs of the model (computed by the harness itself)',
     ])
     rng = ctx.rng
-    n_cases = ctx.scale(260, 5000)
+    n_cases = ctx.scale(1200, 15000)
     deadline = ctx.t0 + ctx.scale(50, 480)
     drv = C.Driver('pubsub')
     evals = validated = failures = 0
